@@ -24,12 +24,16 @@ def callees(f):
 
 def main():
     doc = facts.load(raw=True)
+    callers = {}
+    for f in doc["fns"]:
+        for c in callees(f):
+            callers.setdefault(c, set()).add(f["id"] if f["kind"] != "closure" else f["id"].split("::{closure")[0])
     table = {}
     for f in doc["fns"]:
         if f["kind"] == "closure" or f.get("from_expansion"):
             continue
         names = [l.get("name") for l in (f.get("mir") or {}).get("locals", [])[1:1 + (f.get("mir") or {}).get("arg_count", 0)]]
-        table[f["id"]] = {"inputs": f.get("inputs"), "output": f.get("output"), "callees": callees(f), "file": f["sp"][0], "param_names": names,
+        table[f["id"]] = {"inputs": f.get("inputs"), "output": f.get("output"), "callees": callees(f), "file": f["sp"][0], "param_names": names, "callers": sorted(callers.get(f["id"], ())), "blocks": len((f.get("mir") or {}).get("blocks", [])),
                           "param_tys": [l["ty"] for l in (f.get("mir") or {}).get("locals", [])[1:1 + (f.get("mir") or {}).get("arg_count", 0)]]}
     adts = {}
     for a in doc["adts"]:
